@@ -36,6 +36,15 @@ def logic_options(rng, nrng):
             elif not np.array_equal(ref, v):
                 p, l = np.argwhere(ref != v)[0]
                 return desc, f'LogicSim(m={m}) c_reuse={reuse} strip_forks={strip}: position {p} lane {l} = {v[p, l]}, with both options off {ref[p, l]}'
+    # second propagation without re-assignment, with memory reuse
+    from kyupy import logic, logic_sim
+    for reuse in (False, True):
+        s2 = logic_sim.LogicSim(c, sims=sims, m=m, c_reuse=reuse)
+        s2.s[0] = logic.mv_to_bp(stim)
+        s2.s_to_c(); s2.c_prop(); s2.c_prop(); s2.c_to_s()
+        v2 = np.where(mask[:, None], logic.bp_to_mv(s2.s[1])[:, :sims], 255)
+        if not np.array_equal(v2, ref):
+            return desc, f'LogicSim(m={m}, c_reuse={reuse}): a second c_prop without s_to_c changes the captured results'
     # more lanes allocated / lane permutation
     sims2 = sims + rng.choice([1, 7, 8])
     stim2 = np.concatenate([stim, np.array(values, dtype=np.uint8)[nrng.integers(0, len(values), size=(stim.shape[0], sims2 - sims))]], axis=1)
@@ -77,6 +86,21 @@ def wave_options(rng):
                           f'{v[col, p, l]}, reference (CPU, options off) {ref[col, p, l]}')
         if not reuse and not strip and not np.array_equal(np.asarray(w.c), np.asarray(base.c)):
             return desc, 'WaveSimCuda waveform memory differs from WaveSim'
+    # a second propagation without re-assigning the inputs (e.g. to evaluate another delay dataset) must still be
+    # independent of memory reuse: inputs stay intact until results are read
+    def twice(reuse, strip, cuda):
+        w = wk.run_case(k, cuda=cuda, reuse=reuse, strip=strip)
+        w.c_prop()
+        w.c_to_s(time=(wc.TMAX if k.tcap is None else k.tcap))
+        return port_view(w)
+    ref2 = twice(False, False, False)
+    if not np.array_equal(ref2, ref):
+        return desc, 'a second c_prop without s_to_c changes the results (c_reuse off)'
+    for reuse, strip, cuda in ((True, False, False), (True, True, True)):
+        if strip and not has_input_forks(k.c):
+            continue
+        if not np.array_equal(twice(reuse, strip, cuda), ref2):
+            return desc, f'second c_prop after one s_to_c: results with c_reuse={reuse} strip_forks={strip} {"GPU" if cuda else "CPU"} differ from c_reuse off'
     # more lanes allocated
     k2 = wk.from_description(wk.describe(k))
     extra_l = rng.choice([1, 3])
